@@ -369,8 +369,13 @@ impl Source for Driver {
                 let k = pick(&mut self.rng, &["puback", "pubrec", "pubrel", "pubcomp", "suback"]).to_string();
                 return Some(recv(Driver::ack(&k, &v, *pick(&mut self.rng, &[0, 0, 77]), 0)));
             }
+            // boundary / unknown identifiers - but never the identifier of a running exchange (environment contract:
+            // the application gives back only identifiers it acquired and has not used)
+            let cands: Vec<i64> = [0i64, 1, 65535, 77].iter().copied()
+                .filter(|id| !t.awaiting.contains_key(id) && !t.sub.contains(id) && !t.stored_pubs.contains(id))
+                .collect();
             let mut rel = Call::of("release");
-            rel.id = *pick(&mut self.rng, &[0, 1, 65535, 77]);
+            rel.id = *pick(&mut self.rng, &cands);
             return Some(rel);
         }
         // general traffic
